@@ -566,6 +566,30 @@ def run(tier):
                            "`%s` returns a bare `JsError::thrown(..)`: the host sees `ThrownValue` where the same uncaught error of a run that did not suspend is reported "
                            "with its name and message (`await order(..)` answered with a promise that is rejected later)" % p12)
     ck.anchor(n12 >= 1, "JsError::thrown constructions in StepResult-returning functions of Interpreter (found %d)" % n12)
+    # S13: import bindings are defined in the module's own scope.  `setup_import_bindings` defines them in whatever environment is current, so in every
+    # function that both installs a module scope and sets the bindings up, the installation (directly or in a private helper) dominates the set-up: done
+    # the other way round the imported names land in the enclosing environment, outlive the module, and an `export { imported }` is a snapshot.
+    ck.rule("S13.bindings-in-module-scope", "in every function that installs a module scope and sets up import bindings, no path leads from the set-up to the installation", floor=3)
+    n13 = 0
+    for p13, f13 in sorted(fx.fns.items()):
+        if f13.derived or f13.closure or not p13.startswith("interpreter::Interpreter::"):
+            continue
+        scope_b = reaches_call(fx, f13, ("::create_module_environment",), depth=1)
+        bind_b = reaches_call(fx, f13, ("::setup_import_bindings",), depth=1)
+        # closures of this function (`setup(..).and_then(|()| compile)`) do not matter: the set-up call itself is in the function
+        if not scope_b or not bind_b or p13.endswith(("::setup_import_bindings", "::create_module_environment")):
+            continue
+        for bb in bind_b:
+            n13 += 1
+            # (the scope is installed on one branch only - a program without a path has none - so the installation need not dominate; it must not come later)
+            later = f13.reachable_from(bb) - {bb}
+            ok13 = not any(sb in later for sb in scope_b)
+            ck.instance("S13.bindings-in-module-scope", "%s: import bindings after the module scope" % p13, F.short_span(f13.blocks[bb]["t"][6]), ok=ok13)
+            if not ok13:
+                ck.finding("S13.bindings-in-module-scope", "S13.bindings-in-module-scope/%s" % p13, F.short_span(f13.blocks[bb]["t"][6]),
+                           "`%s` sets the import bindings up before the module scope is installed: the imported names are defined in the enclosing environment "
+                           "(a later program on the interpreter sees `typeof order === \"function\"`), and `import { count } from ..; export { count }` exports a snapshot" % p13)
+    ck.anchor(n13 >= 3, "functions that install a module scope and set up import bindings (found %d sites)" % n13)
     inst11 = handover_rule(fx, ck)
     ck.anchor(len(inst11) >= 2, "functions installing a module scope (found %s)" % [f.path.split("::")[-1] for f, _ in inst11])
     return ck.finish()
